@@ -92,6 +92,9 @@ class D(Driver):
                 if events.is_harness_exc(e):
                     raise
                 bump(res["counters"], f"exception.{label}.{type(e).__name__}")
+                # the inputs are in the documented domain (BNF-valid lists, finite matrices, positive rectangles):
+                # refusing is one thing, crashing with a programming error is not an answer
+                res["viol"].append(dict(rule="crash", sig=f"crash:{label}:{type(e).__name__}", msg=f"{label} raised {type(e).__name__}: {e}", replay=None))
             return None
 
         # (1) transform strings
